@@ -35,7 +35,7 @@ pub fn alterations(cfg: &Cfg, rounds: usize, ctx: &CtxSpec, rep: u64) -> Vec<Alt
     let ns = cfg.ext + 2;
     for i in 0..ns {
         let pos = frac_of(i, ns);
-        for how in [ScalarHow::Plus1, ScalarHow::Uniform(rep.wrapping_add(i as u64)), ScalarHow::Neg] {
+        for how in [ScalarHow::Plus1, ScalarHow::Uniform(rep.wrapping_add(i as u64)), ScalarHow::Neg, ScalarHow::FlipBit((rep >> (i % 8)) as u8), ScalarHow::FlipBit(255), ScalarHow::FlipBit(252)] {
             v.push(Alt::P(ProofMut::Scalar { pos, how }));
         }
     }
@@ -43,7 +43,7 @@ pub fn alterations(cfg: &Cfg, rounds: usize, ctx: &CtxSpec, rep: u64) -> Vec<Alt
     for i in 0..np {
         let pos = frac_of(i, np);
         let third = if i % 2 == 0 { PointHow::Identity } else { PointHow::Undecodable };
-        for how in [PointHow::Fresh(rep.wrapping_add(100 + i as u64)), PointHow::AddH, PointHow::Scaled(rep ^ i as u64), third] {
+        for how in [PointHow::Fresh(rep.wrapping_add(100 + i as u64)), PointHow::AddH, PointHow::Scaled(rep ^ i as u64), third, PointHow::FlipBit(255), PointHow::FlipBit(0), PointHow::FlipBit((rep >> (i % 8)) as u8)] {
             v.push(Alt::P(ProofMut::Point { pos, how }));
         }
     }
@@ -69,7 +69,7 @@ pub fn alterations(cfg: &Cfg, rounds: usize, ctx: &CtxSpec, rep: u64) -> Vec<Alt
         for how in [StPointHow::Fresh(rep.wrapping_add(200 + j as u64)), StPointHow::AddH, StPointHow::AddG0, StPointHow::Scaled(rep ^ 0x55)] {
             v.push(Alt::S(StMut::Commitment { j: fj, how }));
         }
-        for how in [PromHow::Plus1, PromHow::Minus1, PromHow::Raw(rep.rotate_left(j as u32)), PromHow::ToNone, PromHow::ToSome0, PromHow::MaxInRange] {
+        for how in [PromHow::Plus1, PromHow::Minus1, PromHow::Raw(rep.rotate_left(j as u32)), PromHow::ToNone, PromHow::ToSome0, PromHow::MaxInRange, PromHow::FlipBitInRange(255), PromHow::FlipBitInRange((rep >> 3) as u8)] {
             v.push(Alt::S(StMut::Promise { j: fj, how }));
         }
     }
@@ -213,6 +213,22 @@ pub fn oracle<E: Engine>(_ctx: &RunCtx, spec: &BindSpec, log: &mut CaseLog) -> R
             )
         })
         .map_err(|e| format!("{} while verifying a batch containing the triple altered by {:?}", e, alt))?;
+        // ... directly behind the ORIGINAL, unaltered triple (a verifier that recognises repeated members)
+        let r0 = guarded(|| {
+            E::verify(
+                &mut [t.transcript(), ps.ctx.transcript()],
+                &[t.st.clone(), st.clone()],
+                &[proof.clone(), p2.clone()],
+                VerifyAction::VerifyOnly,
+            )
+        })
+        .map_err(|e| format!("{} while verifying [original, altered] for {:?}", e, alt))?;
+        if !equivalent && r0.is_ok() {
+            return Err(format!("batch [original triple, altered copy] ACCEPTED: alteration {:?}", alt));
+        }
+        if equivalent && r0.is_err() {
+            return Err(format!("batch [original, None<->Some(0) copy] rejected: {:?}", alt));
+        }
         // ... and in a batch of three, last or in the middle (alternating)
         let r3 = guarded(|| {
             if tested % 2 == 0 {
@@ -302,12 +318,12 @@ pub fn def() -> PropertyDef {
         id: "C05",
         level: "exploration",
         rule: "A case is an accepted honest triple (C01 generator); the oracle enumerates EVERY component position with 2-6 replacement values: \
-               each of the d+2 proof scalars (+1, uniform, negated), each of the 3+2k proof points (fresh, +h, scaled, identity/undecodable), the \
+               each of the d+2 proof scalars (+1, uniform, negated, single bit flips incl. the top bits), each of the 3+2k proof points (fresh, +h, scaled, identity/undecodable, single bit flips incl. bit 255), the \
                round count (push / pop / duplicate a pair), the degree tag (every other byte value class; tag and d1 resized together), each \
                commitment (fresh, +h, +g0, scaled), commitment order, each promise (+-1, uniform, None, Some(0), max), every other bit length, h \
                and each g_k (fresh, +other, scaled), the transcript context (label, extra message, edited / dropped message). Each altered triple \
                is verified alone in VerifyOnly and RecoverAndVerify and as the last member of a 2-batch behind a valid single-commitment \
-               member; every result must be Err (from decoder, constructors or verifier), never Ok, never a panic; the None<->Some(0) promise \
+               member, behind the unaltered original itself, and inside 3-batches; every result must be Err (from decoder, constructors or verifier), never Ok, never a panic; the None<->Some(0) promise \
                change is the control and must still be accepted. Non-trivial = an alteration that changed the encoding and reached the verifier or \
                a refusing constructor; distinct by (kind, configuration, case, index)."
             .into(),
